@@ -126,6 +126,7 @@ func (q *rpcQueue) Pop(ctx context.Context) (*RPC, error) {
 			return nil, ErrQueueCancelled
 		default:
 		}
+		verifSchedPoint("pop-before-wait")
 		q.dataAvailable.Wait()
 		// It can receive a signal because the queue is closed.
 		if q.closed {
